@@ -176,4 +176,5 @@ InvC20 == Done => C20ok(sc, ModelObs)
 TypeOK == /\ pc \in {"start", "pick", "run", "handle", "validate", "enddoc", "finish", "done"}
           /\ d \in 1..NDocs /\ exit \in {None, 0, 1, 50}
           /\ (lim # None => lim >= 0)
+          /\ StreamWF(sc)
 =============================================================================
